@@ -36,6 +36,15 @@ func init() {
 			o.do("chess gen " + f)
 			o.do("chess legal " + f)
 		})
+		// move generation rests on the slider lookups: in a fresh process, whichever piece is asked first (queen before any
+		// bishop; rook first) gets the right squares - see `rawline`
+		rawBase := 2 * r.Int63n(1<<40)
+		for i := 0; i < 2; i++ {
+			line := fmt.Sprintf("published rawline %d 600", rawBase+int64(i))
+			o.do(line)
+			o.Count("fresh-process-slider-lookups")
+			o.Nontrivial(line)
+		}
 		// perft: implementation vs model vs reference semantics vs the published counts
 		for _, t := range perftTable {
 			maxd := 2
